@@ -700,6 +700,15 @@ class C16(Family):
                 # (an identically zero transfer function is zero only up to rounding in floating
                 # point; a value at noise level counts as 0)
                 A_, B_, C_, D_ = mats(case)
+                if disc and case["n"]:
+                    # the code runs its Hamiltonian test on the inverse-bilinear image
+                    # B' = 2 (A+I)^-1 B, C' = 2 C (A+I)^-1 of the discrete system: the level below which
+                    # its eigenvalue test (np.isclose, atol 1e-8) cannot tell gamma from 0 scales with THOSE
+                    # matrices (thorough seed 10: |B'||C'| = 14 for |B||C| = 2, value returned 3.5e-7)
+                    Ai = exmat.solve(exmat.add(A_, exmat.eye(case["n"])), exmat.eye(case["n"]))
+                    if Ai is not None:
+                        B_ = exmat.scale(F(2), exmat.mul(Ai, B_))
+                        C_ = exmat.scale(F(2), exmat.mul(C_, Ai))
                 noise = F(1, 10 ** 7) * max(F(1), exmat.maxabs(B_) * exmat.maxabs(C_))
                 if "ok" in impl and "val" in impl["ok"] and abs(F(impl["ok"]["val"])) < noise:
                     return Verdict(AGREE)
